@@ -68,7 +68,8 @@ impl Var {
                     self.types[idx] = var_type.clone();
                 }
                 self.vars.retain(|k, v| {
-                    if !k.chars().last().unwrap_or('-').is_ascii_alphabetic() {
+                    // keys of decorated names end in their decorator (also "A$,1,A$")
+                    if k.ends_with(['$', '!', '#', '%']) {
                         true
                     } else {
                         match v {
